@@ -287,6 +287,107 @@ def h(x):
 def f():
     return g(1), h(0), h(1)
 """,
+    "custom-exception-subclass-and-raise-from": """
+class NetError(ValueError):
+    pass
+class PinError(NetError):
+    def __init__(self, pin):
+        super().__init__(f"bad pin {pin}")
+        self.pin = pin
+def g(x):
+    if x == 1:
+        raise NetError("one")
+    if x == 2:
+        try:
+            {}["k"]
+        except KeyError as e:
+            raise PinError("k") from e
+    return x
+def f():
+    out = []
+    for x in (0, 1, 2):
+        try:
+            out.append(g(x))
+        except PinError:
+            out.append("pin")
+        except ValueError:
+            out.append("value")
+    try:
+        g(2)
+    except NetError:
+        out.append("net")
+    return out
+""",
+    "contextmanager-suppress-with-exit": """
+from contextlib import contextmanager, suppress
+@contextmanager
+def tracked(log, name):
+    log.append("enter " + name)
+    try:
+        yield name.upper()
+    finally:
+        log.append("exit " + name)
+class Res:
+    def __init__(self, log):
+        self.log = log
+    def __enter__(self):
+        self.log.append("in")
+        return self
+    def __exit__(self, et, ev, tb):
+        self.log.append("out")
+        return False
+def f():
+    log = []
+    with tracked(log, "a") as v, Res(log):
+        log.append(v)
+    with suppress(KeyError):
+        {}["x"]
+        log.append("not reached")
+    try:
+        with tracked(log, "b"):
+            raise ValueError("x")
+    except ValueError:
+        log.append("caught")
+    return log
+""",
+    "enum-and-singledispatch-and-replace": """
+from enum import Enum, auto
+from functools import singledispatch
+from dataclasses import dataclass, replace
+from itertools import pairwise
+class Kind(str, Enum):
+    AND = "and"
+    OR = "or"
+    def dual(self):
+        return Kind.OR if self is Kind.AND else Kind.AND
+class Color(Enum):
+    RED = auto()
+    BLUE = auto()
+@singledispatch
+def names(x):
+    return list(x)
+@names.register(str)
+def _(x):
+    return [x]
+@dataclass(frozen=True)
+class P:
+    x: int
+    y: int = 0
+def f():
+    k = Kind("and")
+    return (k is Kind.AND, k == "and", k.value, k.name, k.dual().value, [m.value for m in Kind], Kind.OR in Kind, "or" in [m.value for m in Kind], Color.RED.value, Color.BLUE.value, Color.RED == Color.BLUE,
+            names("ab"), names(("a", "b")), replace(P(1), y=5) == P(1, 5), {P(1, 2): "v"}[P(1, 2)], list(pairwise("abc")), {Kind.AND: 1}[Kind.AND])
+""",
+    "local-imports-and-dict-operators": """
+def f():
+    from itertools import chain
+    import functools
+    from collections import Counter
+    a = {"x": 1} | {"y": 2}
+    a |= {"z": 3}
+    s = {1, 2} ^ {2, 3}
+    return list(chain([1], [2])), functools.reduce(lambda p, q: p + q, [1, 2, 3]), a, sorted(s), sorted(Counter("aab").items()), list(zip("ab", "cd", strict=True))
+""",
     "walrus-in-generator-expression": """
 from itertools import count
 def f():
@@ -322,6 +423,174 @@ def f():
     args = [1, 2, 3]
     kw = {"key": "k", "z": 0}
     return g(*args, **kw), g(9), g(*"ab", key=1)
+""",
+    "dict-subclass-with-missing": """
+class Aliases(dict):
+    __slots__ = ()
+    def __missing__(self, k):
+        return k
+    def twice(self, k):
+        return self[k] * 2
+def f():
+    a = Aliases({"1'b0": "tie0"})
+    return [a["1'b0"], a["net"], a.get("zz"), a.twice("q"), len(a), isinstance(a, dict)]
+""",
+    "enum-functional-api-with-aliases": """
+from enum import Enum
+G = Enum("G", {"and": "and", "nand": "and", "or": "or", "nor": "or"})
+def f():
+    out = [G["nand"].value, G["nand"] is G["and"], [m.name for m in G], G("or").name]
+    try:
+        G["xor"]
+    except KeyError:
+        out.append("no xor")
+    return out
+""",
+    "exitstack-push-sees-the-exception": """
+from contextlib import ExitStack
+def f():
+    log = []
+    def undo(exc_type, exc, tb):
+        log.append(("undo", exc_type is not None and issubclass(exc_type, ValueError)))
+        return False
+    try:
+        with ExitStack() as stack:
+            stack.push(undo)
+            stack.callback(log.append, "cb")
+            raise ValueError("rejected")
+    except ValueError:
+        log.append("propagated")
+    with ExitStack() as stack:
+        stack.push(undo)
+    return log
+""",
+    "contextmanager-catches-at-the-yield": """
+from contextlib import contextmanager
+@contextmanager
+def discard(log):
+    try:
+        yield
+    except ValueError:
+        log.append("rolled back")
+        raise
+    else:
+        log.append("kept")
+def f():
+    log = []
+    with discard(log):
+        log.append("body")
+    try:
+        with discard(log):
+            raise ValueError("no")
+    except ValueError:
+        log.append("seen")
+    try:
+        with discard(log):
+            raise KeyError("other")
+    except KeyError:
+        log.append("key")
+    return log
+""",
+    "singledispatch-register-by-annotation": """
+from functools import singledispatch
+@singledispatch
+def nodes(ns):
+    return list(ns)
+@nodes.register
+def _(ns: str):
+    return [ns]
+@nodes.register
+def _(ns: int | float):
+    return [str(ns)]
+def f():
+    return [nodes("ab"), nodes(["a", "b"]), nodes(3), nodes(2.5), nodes(("x",))]
+""",
+    "counter-and-template": """
+from collections import Counter
+from string import Template
+def f():
+    c = Counter("abca")
+    c.subtract("ab")
+    t = Template("module $name ($ports);")
+    return [c["a"], c["z"], sorted(c.items()), c.most_common(1), t.substitute(name="m", ports="a, b")]
+""",
+    "exception-subclass-chain-and-factory": """
+class LintError(ValueError):
+    MAX = 2
+    @classmethod
+    def summary(cls, errors):
+        return cls(f"{len(errors)} errors: " + "; ".join(errors[: cls.MAX]))
+class PinError(LintError):
+    pass
+def g(kind):
+    if kind == 0:
+        raise LintError.summary(["a", "b", "c"])
+    if kind == 1:
+        raise PinError("pin")
+    raise KeyError("k")
+def f():
+    out = []
+    for k in (0, 1, 2):
+        try:
+            g(k)
+        except ValueError as e:
+            out.append(("value", isinstance(e, LintError), isinstance(e, PinError)))
+        except LookupError:
+            out.append("lookup")
+    return out
+""",
+    "unhashable-lookup-in-a-set-is-a-typeerror": """
+def f():
+    out = []
+    for t in ("and", ["and"], None, 7):
+        try:
+            out.append(t in frozenset({"and", "or"}))
+        except TypeError:
+            out.append("TypeError")
+    out.append(["and"] in ["and", ["and"]])
+    return out
+""",
+    "isinstance-against-abcs-sees-str-as-iterable": """
+from collections.abc import Iterable, Sequence, Mapping
+def f():
+    return [isinstance("ab", Iterable), isinstance("ab", Sequence), isinstance({1}, Sequence), isinstance({}, Mapping), isinstance(3, Iterable), isinstance((x for x in ()), Iterable)]
+""",
+    "method-lru-cache-is-per-object": """
+from functools import lru_cache
+class Box:
+    def __init__(self, v):
+        self.v = v
+        self.calls = 0
+    @lru_cache(maxsize=None)
+    def get(self, k):
+        self.calls += 1
+        return (self.v, k)
+def f():
+    a, b = Box(1), Box(2)
+    r = [a.get("x"), a.get("x"), b.get("x"), a.get("y")]
+    a.v = 9
+    r.append(a.get("x"))
+    return r + [a.calls, b.calls]
+""",
+    "user-class-with-a-method-named-lookup": """
+from enum import Enum
+class NodeType(Enum):
+    BUF = "buf"
+    INPUT = "input"
+    @classmethod
+    def lookup(cls, t):
+        try:
+            return cls(t)
+        except ValueError:
+            return None
+    @property
+    def is_source(self):
+        return self is NodeType.INPUT
+class Table:
+    def mro(self):
+        return "mine"
+def f():
+    return [NodeType.lookup("buf").is_source, NodeType.lookup("input").is_source, NodeType.lookup("zz"), Table().mro()]
 """,
 }
 
